@@ -43,9 +43,13 @@ _REAL_OPEN = builtins.open
 PLACE = {"root": "root", "n1": "nested-schema", "n2": "nested-schema", "n3": "nested-schema",
          "n123": "nested-schema", "type": "config-type", "type-inner": "schema-in-config-type",
          "list": "list-item", "list-inner": "schema-in-list-item", "list-type": "list-config-type-item",
-         "nested-list": "list-in-nested-schema", "nested-type": "config-type-in-nested-schema"}
+         "nested-list": "list-in-nested-schema", "nested-type": "config-type-in-nested-schema",
+         "seclist": "list-of-secure-field", "nested-seclist": "list-of-secure-field-in-nested-schema",
+         "secdict": "dict-of-secure-field", "nested-secdict": "dict-of-secure-field-in-nested-schema"}
+# shapes whose secrets are ITEMS of a container field: the owning configuration is loc[:-2]
+CONTAINER = {"seclist", "nested-seclist", "secdict", "nested-secdict"}
 SUB_PATH = {"n1": ("a",), "n2": ("a",), "n3": ("a", "b"), "n123": ("a",), "nested-list": ("a",),
-            "nested-type": ("a",)}
+            "nested-type": ("a",), "nested-seclist": ("a",), "nested-secdict": ("a",)}
 ASSIGNS = {"root": ["default", "root"],
            "n1": ["default", "root", "sub", "root+sub"], "n2": ["default", "root", "sub", "root+sub"],
            "n3": ["default", "root", "sub", "root+sub"], "n123": ["default", "root", "sub", "root+sub"],
@@ -53,13 +57,17 @@ ASSIGNS = {"root": ["default", "root"],
            "list-type": ["default", "root", "type", "root+type"],
            "nested-type": ["default", "root", "type", "root+type", "sub"],
            "list": ["default", "root"], "list-inner": ["default", "root"],
-           "nested-list": ["default", "root", "sub"]}
+           "nested-list": ["default", "root", "sub"],
+           "seclist": ["default", "root"], "secdict": ["default", "root"],
+           "nested-seclist": ["default", "root", "sub"], "nested-secdict": ["default", "root", "sub"]}
 LOCS = {"root": [("s",)], "n1": [("a", "s")], "n2": [("a", "b", "s")], "n3": [("a", "b", "c", "s")],
         "n123": [("s",), ("a", "s"), ("a", "b", "s"), ("a", "b", "c", "s")],
         "type": [("t", "s")], "type-inner": [("t", "inner", "s")],
         "list": [("l", 0, "s"), ("l", 1, "s")], "list-inner": [("l", 0, "inner", "s")],
         "list-type": [("lt", 0, "s"), ("lt", 1, "s")], "nested-list": [("a", "l", 0, "s")],
-        "nested-type": [("a", "t", "s")]}
+        "nested-type": [("a", "t", "s")],
+        "seclist": [("sl", 0), ("sl", 1), ("sl", 2)], "nested-seclist": [("a", "sl", 0), ("a", "sl", 1)],
+        "secdict": [("sd", "k0"), ("sd", "k1")], "nested-secdict": [("a", "b", "sd", "k0"), ("a", "b", "sd", "k1")]}
 TYPE_PREFIX = {"type": ("t",), "type-inner": ("t",), "nested-type": ("a", "t")}      # list-type: the items
 
 
@@ -150,7 +158,7 @@ def _exc(e):
 
 def _get(obj, path):
     for seg in path:
-        obj = obj[seg] if isinstance(seg, int) else getattr(obj, seg)
+        obj = obj[seg] if isinstance(seg, int) or isinstance(obj, (dict, list)) else getattr(obj, seg)
     return obj
 
 
@@ -206,7 +214,7 @@ class Env:
         self.schema = self._schema()
 
     def _schema(self):
-        from cincoconfig import ListField, Schema, SecureField, StringField, make_type
+        from cincoconfig import DictField, ListField, Schema, SecureField, StringField, make_type
         m = self.method
         s = Schema()
         s.name = StringField(default="app")
@@ -252,6 +260,14 @@ class Env:
                 s.a.l = ListField(it)
             else:
                 s.l = ListField(it)
+        elif sh == "seclist":
+            s.sl = ListField(SecureField(method=m))
+        elif sh == "nested-seclist":
+            s.a.sl = ListField(SecureField(method=m))
+        elif sh == "secdict":
+            s.sd = DictField(value_field=SecureField(method=m))
+        elif sh == "nested-secdict":
+            s.a.b.sd = DictField(value_field=SecureField(method=m))
         else:
             raise ValueError(sh)
         return s
@@ -266,7 +282,7 @@ class Env:
     def expected(self, loc, assign=None):
         """name of the key file the configuration owning `loc` has to use: nearest ancestor that names one"""
         assign = self.assign if assign is None else assign
-        owner = loc[:-1]
+        owner = loc[:-2] if self.shape in CONTAINER else loc[:-1]
         for n in range(len(owner), -1, -1):
             pre = owner[:n]
             if n < len(owner) and isinstance(owner[n], int):
@@ -293,6 +309,9 @@ class Env:
                         node = node[seg]
                     else:
                         node = node.setdefault(seg, [] if isinstance(nxt, int) else {})
+                if isinstance(loc[-1], int):
+                    while len(node) <= loc[-1]:
+                        node.append(None)
                 node[loc[-1]] = p
             cfg.load_tree(tree)
             # the sub-configuration objects were replaced by load_tree: name the sub key file again
@@ -315,6 +334,12 @@ class Env:
                 cfg.l = items
         elif sh == "list-type":
             cfg.lt = [self.T(s=p) for p in plains]
+        elif sh in CONTAINER:
+            field_path = self.locs[0][:-1]
+            if sh.endswith("seclist"):
+                cfg[".".join(field_path)] = list(plains)
+            else:
+                cfg[".".join(field_path)] = {loc[-1]: p for loc, p in zip(self.locs, plains)}
         else:
             for loc, p in zip(self.locs, plains):
                 cfg[".".join(loc)] = p
@@ -371,7 +396,15 @@ def check_case(tmp, case):
     shape, assign, method = case["shape"], case["assign"], case["method"]
     place = PLACE[shape]
     env = Env(tmp, shape, assign, method, case.get("keyfiles"))
-    plains = ["%s#%d" % (case["plain"], i) for i in range(len(env.locs))]
+    if case.get("nbytes"):
+        plains = [exact_plain(case["nbytes"], i, case["multibyte"]) for i in range(len(env.locs))]
+    else:
+        plains = ["%s#%d" % (case["plain"], i) for i in range(len(env.locs))]
+    # a plaintext of a few bytes occurs in any output by chance: absence is evaluated from 6 bytes on (the
+    # structural clause - exactly {'method', 'ciphertext'} at the location - is evaluated for every length)
+    searchable = [p for p in plains if len(p.encode("utf-8")) >= 6]
+    lensfx = "|bytes=%d|%s" % (case["nbytes"], "utf8-multibyte" if case["multibyte"] else "ascii") \
+        if case.get("nbytes") else ""
 
     def bad(obl, wk, what):
         fails.append((obl, wk, what))
@@ -395,7 +428,7 @@ def check_case(tmp, case):
         """stable id of the failing input class: phase + where the secret sits (+ whether the key file is named by
         a sub-configuration, which load replaces by a new object)"""
         sub = any(env.expected(loc) == "sub" for loc in env.locs)
-        return "%s|%s%s" % (phase, place, "|sub-config-names-key-file" if sub else "")
+        return "%s|%s%s%s" % (phase, place, "|sub-config-names-key-file" if sub else "", lensfx)
 
     if case["kind"] == "saveload":
         fmt, build = case["fmt"], case["build"]
@@ -414,12 +447,12 @@ def check_case(tmp, case):
                 return fails
             content = _read(cfile)
             t_ok = touched_ok(w, "save", wk1, exp_names, before, exclude=(cfile,))
-            for p in plains:
+            for p in searchable:
                 pb = p.encode("utf-8")
                 if pb in content or json.dumps(p)[1:-1].encode() in content:
                     bad(O_PLAIN, "%s|%s" % (place, fmt), "plaintext occurs in the %s output" % fmt)
             tree = _parse(fmt, content, cfg1)
-            for p in plains:
+            for p in searchable:
                 if _leaks(tree, p.encode("utf-8")):
                     bad(O_PLAIN, "%s|%s|parsed" % (place, fmt), "plaintext occurs in the parsed %s output" % fmt)
             s_ok = _check_saved(env, tree, plains, bad, wk1, env.expected)
@@ -437,9 +470,10 @@ def check_case(tmp, case):
                 return fails
             for loc, p in zip(env.locs, plains):
                 v, e = _call(_get, cfg2, loc)
-                if e is not None or v != p:
-                    bad(O_LOAD, wk2, "%s after load is %s, expected the plaintext"
-                        % (".".join(map(str, loc)), _exc(e) if e is not None else repr(v)[:60]))
+                if e is not None or v != p or type(v) is not str:
+                    bad(O_LOAD, wk2, "%s after load is %s, expected the whole plaintext (%d bytes)"
+                        % (".".join(map(str, loc)), _exc(e) if e is not None else repr(v)[:60],
+                           len(p.encode("utf-8"))))
                     l_ok = False
             if not l_ok:
                 return fails
@@ -504,6 +538,29 @@ def check_case(tmp, case):
 
 # ---------------------------------------------------------------------------------------------------------------
 PLAINS = ["hunter2-sekrit", "pässwörd ☃ \U0001f511", "x", "correct horse battery staple, " * 10]
+LENGTHS = [1, 15, 16, 17, 31, 32, 33, 48, 64, 100]
+
+
+def exact_plain(nbytes, index, multibyte):
+    """a secret of exactly `nbytes` UTF-8 bytes that starts with the location index; multibyte: 2-, 3- and 4-byte
+    code points (needs nbytes >= 3)"""
+    head = str(index)
+    if not multibyte:
+        fill = "abcdefghijklmnopqrstuvwxyzABCDEFGHIJKLMNOPQRSTUVWXYZ"
+        return (head + fill * 3)[:nbytes]
+    out, left, i = head, nbytes - 1, 0
+    units = ["\u00e9", "\u2603", "\U0001f511", "\u00df", "\u5bc6"]          # 2, 3, 4, 2, 3 bytes
+    while left > 0:
+        u = units[i % len(units)]
+        n = len(u.encode("utf-8"))
+        if n > left:
+            u = {1: "z", 2: "\u00e4", 3: "\u20ac"}[left]
+            n = left
+        out += u
+        left -= n
+        i += 1
+    assert len(out.encode("utf-8")) == nbytes
+    return out
 
 
 def gen_cases(rng, tier):
@@ -522,6 +579,18 @@ def gen_cases(rng, tier):
                             kf = {k: (rk() if pre else None) for k in ("root", "sub", "type", "default")}
                             yield {"kind": "saveload", "shape": shape, "assign": assign, "build": build,
                                    "method": method, "fmt": fmt, "plain": plain, "keyfiles": kf}
+    # ---- exact plaintext lengths around the AES block / key size, at every placement, new session round trip
+    for shape in LOCS:
+        for nbytes in LENGTHS:
+            for multibyte in (False, True):
+                if multibyte and nbytes < 3:
+                    continue
+                for method in METHODS:
+                    n += 1
+                    kf = {k: (rk() if n % 2 == 0 else None) for k in ("root", "sub", "type", "default")}
+                    yield {"kind": "saveload", "shape": shape, "assign": "root", "build": "attr" if n % 3 else "tree",
+                           "method": method, "fmt": FORMATS[n % 5], "plain": "", "nbytes": nbytes,
+                           "multibyte": multibyte, "keyfiles": kf}
     rekeys = [("root", "root", "root->other"), ("root", "root", "root->unset"),
               ("n1", "root", "root->other"), ("n1", "root", "root->unset"),
               ("n2", "root", "root->other"), ("n3", "root", "root->other"), ("n123", "root", "root->other"),
@@ -548,12 +617,14 @@ def rac(tier: str, seed: int) -> dict:
                    "save+load, and per (shape, assignment, key-file change, used before?, method, format) history; "
                    "every case checks all secret locations of its shape against an independent decryption under the "
                    "expected key file and against the log of opened/created key files",
-                   bound="12 shapes (root; nested depth 1,2,3, all depths; config type; schema in config type; "
+                   bound="16 shapes (root; nested depth 1,2,3, all depths; config type; schema in config type; "
                    "list-of-schema items; schema in list item; list-of-config-type items; list in nested schema; "
-                   "config type in nested schema) x 2-5 key-file assignments (default/root/sub/root+sub/type/"
+                   "config type in nested schema; ListField(SecureField) and DictField(value_field=SecureField) at "
+                   "the root and nested) x 2-5 key-file assignments (default/root/sub/root+sub/type/"
                    "root+type) x build {attr, tree} x methods aes/xor/best x 5 formats; plaintexts ascii/unicode/"
                    "1 char/300 chars (2 of the 4 per combination in quick, rotating); key files pre-existing or created by the library "
-                   "(alternating); 21 key-file-change histories x used/not used x 3 methods x %s formats"
+                   "(alternating); exact secret lengths 1,15,16,17,31,32,33,48,64,100 bytes (ASCII and 2/3/4-byte UTF-8) x 16 "
+                   "shapes x 3 methods (root key file, format and build mode rotating); 21 key-file-change histories x used/not used x 3 methods x %s formats"
                    % ("2" if tier == "quick" else "5"), tier=tier, seed=seed)
     with sandbox() as tmp:
         n = 0
@@ -563,7 +634,8 @@ def rac(tier: str, seed: int) -> dict:
             n += 1
             fs = check_case(tmp, case)
             key = tuple(case[k] for k in ("kind", "shape", "assign", "method", "fmt")) + \
-                (case.get("build"), case.get("mode"), case.get("used"), case["plain"][:8])
+                (case.get("build"), case.get("mode"), case.get("used"), case["plain"][:8], case.get("nbytes"),
+                 case.get("multibyte"))
             rec.case(key=key, nontrivial=True,
                      sample=dict(case, keyfiles="...") if n % 397 == 1 else None)
             for obl, wk, what in fs:
